@@ -263,6 +263,197 @@ impl<T> Drop for HookedStdGuard<'_, T> {
     }
 }
 
+/// Locks a plain [`std::sync::Mutex`] the way [`HookedStdMutex::lock`] does
+/// (scheduling point, engine-level waiting, acquisition and release
+/// reported), for mutexes that are not behind an `Arc`.
+pub fn lock_std<T>(m: &sync::Mutex<T>) -> LockResult<HookedStdGuard<'_, T>> {
+    before_std_lock(m);
+    let id = m as *const sync::Mutex<T> as *const () as usize as u64;
+    let r = m.lock();
+    if let Some(h) = current() {
+        h.mutex_acquired(id);
+    }
+    match r {
+        Ok(g) => Ok(HookedStdGuard { inner: Some(g), id }),
+        Err(p) => Err(PoisonError::new(HookedStdGuard {
+            inner: Some(p.into_inner()),
+            id,
+        })),
+    }
+}
+
+/// A plain [`std::sync::Mutex`] as a field type whose `lock()` goes through
+/// [`lock_std`].
+#[derive(Debug, Default)]
+pub struct PlainMutex<T>(pub sync::Mutex<T>);
+
+impl<T> PlainMutex<T> {
+    pub fn lock(&self) -> LockResult<HookedStdGuard<'_, T>> {
+        lock_std(&self.0)
+    }
+}
+
+// ---------------------------------------------------------------------
+// RwLock
+
+/// Shim around [`std::sync::RwLock`]. `read()` and `write()` are scheduling
+/// points (reported as `Op::MutexLock`); a caller that would block waits
+/// through the hooks. The lock is reported as held from the first reader (or
+/// the writer) until the last one leaves.
+pub struct RwLock<T> {
+    id: u64,
+    readers: atomic::AtomicUsize,
+    inner: sync::RwLock<T>,
+}
+
+pub struct RwLockReadGuard<'a, T> {
+    inner: Option<sync::RwLockReadGuard<'a, T>>,
+    lock: &'a RwLock<T>,
+}
+
+pub struct RwLockWriteGuard<'a, T> {
+    inner: Option<sync::RwLockWriteGuard<'a, T>>,
+    id: u64,
+}
+
+impl<T> RwLock<T> {
+    pub fn new(t: T) -> Self {
+        Self {
+            id: new_object(ObjKind::Mutex),
+            readers: atomic::AtomicUsize::new(0),
+            inner: sync::RwLock::new(t),
+        }
+    }
+
+    pub fn id(&self) -> u64 {
+        self.id
+    }
+
+    fn reader_entered(&self) {
+        if self.readers.fetch_add(1, atomic::Ordering::SeqCst) == 0 {
+            if let Some(h) = current() {
+                h.mutex_acquired(self.id);
+            }
+        }
+    }
+
+    pub fn read(&self) -> LockResult<RwLockReadGuard<'_, T>> {
+        let Some(hooks) = current() else {
+            return match self.inner.read() {
+                Ok(g) => {
+                    self.reader_entered();
+                    Ok(RwLockReadGuard {
+                        inner: Some(g),
+                        lock: self,
+                    })
+                }
+                Err(p) => {
+                    self.reader_entered();
+                    Err(PoisonError::new(RwLockReadGuard {
+                        inner: Some(p.into_inner()),
+                        lock: self,
+                    }))
+                }
+            };
+        };
+        hooks.point(Op::MutexLock, self.id);
+        loop {
+            match self.inner.try_read() {
+                Ok(g) => {
+                    self.reader_entered();
+                    return Ok(RwLockReadGuard {
+                        inner: Some(g),
+                        lock: self,
+                    });
+                }
+                Err(TryLockError::Poisoned(p)) => {
+                    self.reader_entered();
+                    return Err(PoisonError::new(RwLockReadGuard {
+                        inner: Some(p.into_inner()),
+                        lock: self,
+                    }));
+                }
+                Err(TryLockError::WouldBlock) => hooks.mutex_blocked(self.id),
+            }
+        }
+    }
+
+    pub fn write(&self) -> LockResult<RwLockWriteGuard<'_, T>> {
+        let Some(hooks) = current() else {
+            return match self.inner.write() {
+                Ok(g) => Ok(RwLockWriteGuard {
+                    inner: Some(g),
+                    id: self.id,
+                }),
+                Err(p) => Err(PoisonError::new(RwLockWriteGuard {
+                    inner: Some(p.into_inner()),
+                    id: self.id,
+                })),
+            };
+        };
+        hooks.point(Op::MutexLock, self.id);
+        loop {
+            match self.inner.try_write() {
+                Ok(g) => {
+                    hooks.mutex_acquired(self.id);
+                    return Ok(RwLockWriteGuard {
+                        inner: Some(g),
+                        id: self.id,
+                    });
+                }
+                Err(TryLockError::Poisoned(p)) => {
+                    hooks.mutex_acquired(self.id);
+                    return Err(PoisonError::new(RwLockWriteGuard {
+                        inner: Some(p.into_inner()),
+                        id: self.id,
+                    }));
+                }
+                Err(TryLockError::WouldBlock) => hooks.mutex_blocked(self.id),
+            }
+        }
+    }
+}
+
+impl<T> Deref for RwLockReadGuard<'_, T> {
+    type Target = T;
+    fn deref(&self) -> &T {
+        self.inner.as_ref().unwrap()
+    }
+}
+
+impl<T> Drop for RwLockReadGuard<'_, T> {
+    fn drop(&mut self) {
+        drop(self.inner.take());
+        if self.lock.readers.fetch_sub(1, atomic::Ordering::SeqCst) == 1 {
+            if let Some(h) = current() {
+                h.mutex_released(self.lock.id);
+            }
+        }
+    }
+}
+
+impl<T> Deref for RwLockWriteGuard<'_, T> {
+    type Target = T;
+    fn deref(&self) -> &T {
+        self.inner.as_ref().unwrap()
+    }
+}
+
+impl<T> DerefMut for RwLockWriteGuard<'_, T> {
+    fn deref_mut(&mut self) -> &mut T {
+        self.inner.as_mut().unwrap()
+    }
+}
+
+impl<T> Drop for RwLockWriteGuard<'_, T> {
+    fn drop(&mut self) {
+        drop(self.inner.take());
+        if let Some(h) = current() {
+            h.mutex_released(self.id);
+        }
+    }
+}
+
 // ---------------------------------------------------------------------
 // Atomics
 
